@@ -119,6 +119,8 @@ protected:
 
     void popScope() {
         if (isGlobal()) { return; }
+        // the matching pushScope was skipped if declarations were global at that time
+        if (not scopedNamesAndTerms.hasOpenScope()) { return; }
         scopedNamesAndTerms.popScope([this](auto const & p) {
             auto const & [name, term] = p;
             assert(not contains(term) or nameToTerm.find(name)->second.x == term.x);
